@@ -390,3 +390,22 @@ def c12(a):
               "BigInt arithmetic on the nanosecond count.")
     c.assumptions = TRUSTED + ["the harness's f64 bit decomposition"]
     return c.finish()
+
+
+@prop("C09")
+def c09(a):
+    c = Check("C09", a.tier, a.seed)
+    workdir("C09")
+    binary = build_harness()
+    drive_and_validate(c, a, binary, "c09", "Trace_Text.tla")
+    zoned_part(c, a, binary, "c09z")
+    c.rule = ("pp_ts / pp_dt / pp_date / pp_time: Timestamp, DateTime, Date, Time printed with the default printer and with "
+              "every precision 0..9 x separator x lowercase combination, timestamps also with whole-minute offsets; z_text: "
+              "Zoned Display text for instants on both sides of every transition, both occurrences of every fold, the LMT "
+              "periods (sub-minute offsets) and folds between sub-minute offsets, in every zone the global database knows. "
+              "The text (as byte values) is read by the independent RFC 3339 / RFC 9557 reader of Rfc3339.tla; the decoded "
+              "value must be the original (to the precision), the printed offset the true offset rounded to the minute, the "
+              "annotation the zone, the civil time + zone + printed offset must determine exactly the original instant, and "
+              "jiff's own re-parse must return the same instant, fields, offset and zone.")
+    c.assumptions = TRUSTED + ["the harness's independent TZif reader", "the global tz database (system zoneinfo) for re-parsing zone names"]
+    return c.finish()
